@@ -188,10 +188,6 @@ public:
         // all the packets that require resending.
         _write_in_progress = true;
 
-        auto new_limit = _svc._stream_context.connack_property(prop::receive_maximum);
-        _limit = new_limit.value_or(MAX_LIMIT);
-        _quota = _limit;
-
         auto write_queue = std::move(_write_queue);
         _svc._replies.resend_unanswered();
 
@@ -199,6 +195,13 @@ public:
             op.complete(asio::error::try_again);
 
         std::stable_sort(_write_queue.begin(), _write_queue.end());
+
+        // The quota is reset only after everything has been re-queued:
+        // an operation that was cancelled completes inside the loops above
+        // and would otherwise add to the quota of the new connection.
+        auto new_limit = _svc._stream_context.connack_property(prop::receive_maximum);
+        _limit = new_limit.value_or(MAX_LIMIT);
+        _quota = _limit;
 
         _write_in_progress = false;
         do_write();
